@@ -50,6 +50,8 @@ def parseAtom (t : String) : Option FAtom :=
   | "nsIndex" => some .nsIndex
   | "valIndex" => some .valIndex
   | "outIndex" => some .outIndex
+  | "nokeys" => some .noKeys
+  | "nilkeys" => some .nilKeys
   | "keys" => some .keys
   | "objName" => some .objName
   | _ => if t.startsWith "g" then (t.drop 1).toString.toNat?.map FAtom.generic else none
@@ -121,6 +123,8 @@ structure DState where
   subs    : AMap FinMap := []
   psubs   : AMap FinMap := []
   dsubs   : AMap FinMap := []
+  /-- subscribers of the primary collection whose handler was unregistered: the contents at that moment -/
+  pfrozen : AMap FinMap := []
 
 /-- another current input claims `k` -/
 def currentByOther (T : Transform) (prim : List Obj) (p k : Key) : Bool :=
@@ -196,9 +200,22 @@ def chainMap (m : FinMap) : FinMap := m.map (fun kv => (kv.1, kv.2 ++ "|c"))
 /-- first collection wins (`JoinCollection[sec, sec2]`) -/
 def mergeFirst (a b : List Obj) : List Obj := a ++ b.filter (fun o => (ogetD a o.key).isNone)
 
+/-- `JoinWithMergeCollection[sec, sec2]` / `NestedJoinWithMergeCollection` with the harness's order independent
+    merge function: one object per key, its value the sorted values joined by `+`, nothing else kept -/
+def mergeStrip (a b : List Obj) : List Obj :=
+  let strip (o : Obj) (v : String) : Obj := { ns := o.ns, name := o.name, val := v }
+  a.map (fun o => match ogetD b o.key with
+    | some p => strip o (if p.val < o.val then p.val ++ "+" ++ o.val else o.val ++ "+" ++ p.val)
+    | none => strip o o.val) ++
+  (b.filter (fun o => (ogetD a o.key).isNone)).map (fun o => strip o o.val)
+
 /-- contents of the first-level derived collection -/
 def baseContents (d : DState) : FinMap :=
   if d.secmode == "sj" then specContents d.T d.prim (mergeFirst d.sec d.sec2)
+  else if d.secmode == "sm" || d.secmode == "sn" then specContents d.T d.prim (mergeStrip d.sec d.sec2)
+  -- the transformation fetches from its own primary collection (ss) or from a copy derived from it (sp: a diamond)
+  else if d.secmode == "sp" || d.secmode == "ss" then
+    specContents d.T d.prim (if d.single1 then d.prim.filter (fun o => o.key != "n1/s") else d.prim)
   else if d.secmode == "s2" then specContentsAlt d.T d.prim d.sec d.sec2
   else specContents d.T d.prim d.sec
 
@@ -237,14 +254,15 @@ def singletonInput : Obj :=
     ref := "n1/x", val := "v1" }
 
 def stepD (d : DState) (toks : List String) : DState × String :=
-  let d := if d.started && !d.T.fetches.isEmpty && isSecOp (toks.headD "") then { d with secDirty := true } else d
+  let primIsSec := d.secmode == "sp" || d.secmode == "ss"
+  let d := if d.started && !d.T.fetches.isEmpty &&
+      (isSecOp (toks.headD "") || (primIsSec && (toks.headD "").startsWith "p.")) then { d with secDirty := true } else d
   match toks with
   | "case" :: _ :: stream :: t :: rest =>
     match parseTransform t with
     | none => ({}, "bad-op")
     | some T =>
-      let sm := if rest.contains "sd" then "sd" else if rest.contains "sj" then "sj"
-        else if rest.contains "s2" then "s2" else ""
+      let sm := (["sd", "sj", "s2", "sm", "sn", "sp", "ss"].find? (fun m => rest.contains m)).getD ""
       -- `krt.NewSingleton`: the transformation of one constant (dummy) input
       let prim0 : List Obj := if rest.contains "single1" then [singletonInput] else []
       ({ T := T, stream := stream, flagged := rest.contains "f6", chain := rest.contains "chain", secmode := sm,
@@ -290,10 +308,22 @@ def stepD (d : DState) (toks : List String) : DState × String :=
       if !d.lateIdx then "no-index" else showMap (restrictMap (fun k => !inU d k) (specLkF d k))))
   | ["psub", name, kind] =>
     ({ d with psubs := AMap.set d.psubs name (if kind == "nostate" then primContents d else []) }, "ok")
+  | ["punsub", name] =>
+    -- `UnregisterHandler` at a quiescent point: the subscriber keeps what it has, nothing more arrives
+    let d := barrier d
+    (if (AMap.lookup d.psubs name).isSome && (AMap.lookup d.pfrozen name).isNone
+      then { d with pfrozen := AMap.set d.pfrozen name (primContents d) } else d, "ok")
+  | ["burst", o, n] =>
+    -- n updates of one input in a row (values b0 / b1 alternating)
+    match parseObj o, n.toNat? with
+    | some o, some n =>
+      if !d.started || d.T.byVal then (d, "bad-op")
+      else ((List.range n).foldl (fun d j => primSet d { o with val := "b" ++ toString (j % 2) }) d, "ok")
+    | _, _ => (d, "bad-op")
   | "pstream" :: name :: evs =>
     let d := barrier d
     (d, "pstream " ++ match parseEvents evs, AMap.lookup d.psubs name with
-      | some es, some m0 => showVerdict m0 es (primContents d)
+      | some es, some m0 => showVerdict m0 es ((AMap.lookup d.pfrozen name).getD (primContents d))
       | none, _ => "reject:malformed-event"
       | _, none => "unknown-subscriber")
   | ["dsub", name, kind] =>
